@@ -25,11 +25,24 @@ class Case:
         return "\n".join(["CASE %s %s %s" % (self.cid, self.family, self.meta)] + self.lines + ["END"]) + "\n"
 
 
+def _edges(mp):
+    return sum(max(0, len(r) - 1) for poly in mp for r in poly)
+
+
+def budget_for(a, b):
+    """event budget of a request: comfortably above the quadratic bound of C03, small enough that a
+    runaway sweep (finding N2) is cut off quickly"""
+    e = _edges(a) + _edges(b)
+    return 2 * (4 * e * e + 2 * e + 16) + 100
+
+
 def bool_req(prec, op, dbg, budget, pairing, a, b):
+    budget = min(budget, budget_for(a, b))
     return "BOOL %s %s %d %d %s %s %s" % (prec, op, 1 if dbg else 0, budget, pairing, num.enc_mpoly(a), num.enc_mpoly(b))
 
 
 def subdiv_req(prec, op, dbg, budget, a, b):
+    budget = min(budget, budget_for(a, b))
     return "SUBDIV %s %s %d %d %s %s" % (prec, op, 1 if dbg else 0, budget, num.enc_mpoly(a), num.enc_mpoly(b))
 
 
